@@ -223,7 +223,20 @@ func (e *Engine) Reload(d int, twin bool) {
 		kind = "never-cleaned"
 	}
 	_ = kind
-	if a.Last != b.Last || a.Height != b.Height || a.Work != b.Work {
+	tie := false
+	if a.Work == b.Work && a.Last != b.Last {
+		// a tie in work: the loaded repository may report the other tied tip
+		if t := nm.Nodes[b.Last]; t != nil && t.Cum.Cmp(nm.Tip.Cum) == 0 {
+			nm.Tip = t
+			nm.TwinDiverged = true
+			src.M.TwinDiverged = true
+			e.Stats["load_tie_break_differs"]++
+			tie = true
+		}
+	}
+	if tie {
+		// nothing to compare height by height; checkState below holds the loaded chain to the model
+	} else if a.Last != b.Last || a.Height != b.Height || a.Work != b.Work {
 		e.fail("C11", "same-tip", fmt.Sprintf("loaded-tip-differs/%s", tipDiffKind(src, a, b)),
 			fmt.Sprintf("original tip %s h=%d work=%s; loaded tip %s h=%d work=%s", a.Last, a.Height, a.Work, b.Last, b.Height, b.Work))
 		e.fail("C01", "tip-is-max-work", "tip-not-max-work/after=load", fmt.Sprintf("loaded tip %s work %s, saved tip %s work %s", b.Last, b.Work, a.Last, a.Work))
